@@ -335,6 +335,16 @@ func inPackage(r *hx.Result, cfg hx.Config, rng *rand.Rand) {
 			if err != nil {
 				panic(qjs)
 			}
+			circle := ""
+			if qi%5 == 4 {
+				// a CIRCLE area (geojson.Circle): the predicate is the haversine distance, the index is
+				// searched with searchRect = q.Rect() widened by geo.RectFromCenter (finding C02-circle-search-rect)
+				la, lo := float64(rng.Intn(121)-60), float64(rng.Intn(361)-180)
+				m := []float64{0.2, 5, 1500, 250000, 1977520, 4e6, 9e6}[rng.Intn(7)] * (0.5 + rng.Float64())
+				q = verifapi.AreaBuildCircle(la, lo, m)
+				qjs = fmt.Sprintf("CIRCLE %v %v %v", la, lo, m)
+				circle = "-circle"
+			}
 			cs := map[string]interface{}{"history": hist, "query": qjs}
 			for _, op := range []string{"within", "intersects"} {
 				pred := verifapi.GeoWithin
@@ -344,16 +354,27 @@ func inPackage(r *hx.Result, cfg hx.Config, rng *rand.Rand) {
 				}
 				var want []*verifapi.Obj
 				for _, o := range all {
-					if pred(o, q) {
+					// Circle.Contains is vacuously true for an empty collection (finding C02-empty-in-circle):
+					// for circle areas the predicate is TEST's, which answers false for an empty geometry
+					if pred(o, q) && !(circle != "" && (o.Geo().Empty() || offMap(o))) {
 						want = append(want, o)
 					}
 				}
 				got := run(q, 0)
+				if circle != "" {
+					kept := got[:0:0]
+					for _, o := range got {
+						if !offMap(o) {
+							kept = append(kept, o)
+						}
+					}
+					got = kept
+				}
 				gs, ws := idSet(got), idSet(want)
 				r.Count(fmt.Sprintf("inpkg/%d/%d/%s", round, qi, op), len(ws) > 0 && len(ws) < len(all))
 				r.Dist("inpkg:" + op)
 				if strings.Join(gs, ",") != strings.Join(ws, ",") {
-					r.Fail(hx.Failure{Kind: "oracle", Signature: "index-" + op,
+					r.Fail(hx.Failure{Kind: "oracle", Signature: "index-" + op + circle,
 						What: fmt.Sprintf("Collection.%s returned ids %q, a scan applying the same predicate to every object gives %q", op, gs, ws), Case: cs})
 				}
 				for _, sparse := range []uint8{1, 2, 3} {
@@ -372,7 +393,7 @@ func inPackage(r *hx.Result, cfg hx.Config, rng *rand.Rand) {
 				}
 			}
 			// index candidates vs Model/Search.geo_search
-			qr := verifapi.GeoRect(q)
+			qr := verifapi.GeoSearchRect(q) // the rectangle Within / Intersects hand to geoSearch
 			impl := strings.Join(hexIDs(c.GeoSearch(qr)), ",")
 			if impl == "" {
 				impl = "-"
@@ -384,6 +405,14 @@ func inPackage(r *hx.Result, cfg hx.Config, rng *rand.Rand) {
 		}
 		r.TracesImpl++
 	}
+}
+
+// offMap: a coordinate beyond +-180 / +-90 (the generator stores such objects on purpose). The haversine
+// distance of a circle area is periodic in the longitude, so for these objects "a hit implies overlapping
+// rectangles" is not claimed for circle areas; they are left out of the circle comparisons.
+func offMap(o *verifapi.Obj) bool {
+	r := verifapi.GeoRect(o.Geo())
+	return !(r[0] >= -180 && r[2] <= 180 && r[1] >= -90 && r[3] <= 90)
 }
 
 func hexIDs(l []*verifapi.Obj) []string {
@@ -586,7 +615,7 @@ func diff(a, b []string) []string {
 func runC02(r *hx.Result, cfg hx.Config) {
 	r.Rule = "rounding: one case = one float64 bit pattern (every float64 and float32 binade boundary with neighbours and float32 midpoints, subnormals, +-0, +-Inf, NaN, beyond MaxFloat32, random doubles); non-trivial = the value is not exactly representable in float32 (down or up differs from it). in-package / black-box: one case = one (dataset built by a random insert/overwrite/move/delete history, query area, WITHIN|INTERSECTS) comparison of the index result with the index-free predicate evaluated for every id; non-trivial = the exact result is a non-empty strict subset of the dataset."
 	r.Assumptions = []string{
-		"oracle hypothesis of c02_search_exact: Within/Intersects(o, q) implies the float64 bounding rectangles of o and q overlap (tidwall/geojson)",
+		"oracle hypothesis of c02_search_exact: Within/Intersects(o, q) implies that the float64 bounding rectangle of o overlaps the search rectangle of q (tidwall/geojson); the search rectangle (qrect) is collection.searchRect(q): q.Rect(), and for a circle its union with geo.RectFromCenter(center, meters), which contains the haversine disc for radii of about 0.3 m and more (below that RectFromCenter collapses to the centre and the polygon approximation's box alone is used, as before)",
 		"strings and empty geometries never satisfy Within/Intersects",
 		"tidwall/rtree Search reports exactly the entries whose float32 rectangle intersects the target (abstract container; sampled in-package against Model/Search.geo_search)",
 		"SPARSE leaf rectangles (float64 quad split) are not modelled: c02_sparse_sound holds for any leaves",
